@@ -1065,26 +1065,33 @@ class Pyramid(object):
                 else:
                     readiness[ppos] = flags
 
+        if failed:
+            # Nobody is listening to `done_queue` anymore, so the surviving
+            # workers could block forever trying to report to it -- and then
+            # `ready_queue` would never drain either. Shut everything down
+            # without waiting for the queues to empty.
+            for w in workers:
+                w.terminate()
+
+            for w in workers:
+                w.join()
+
+            ready_queue.cancel_join_thread()
+            ready_queue.close()
+
+            raise Exception(
+                "a worker process failed during the parallel walk; its error "
+                "message should have been printed above"
+            )
+
         # All done!
 
         ready_queue.close()
         ready_queue.join_thread()
         done_event.set()
 
-        if failed:
-            # Nobody is listening to `done_queue` anymore, so the surviving
-            # workers must not be left to fill it up.
-            for w in workers:
-                w.terminate()
-
         for w in workers:
             w.join()
-
-        if failed:
-            raise Exception(
-                "a worker process failed during the parallel walk; its error "
-                "message should have been printed above"
-            )
 
         from .par_util import check_workers_succeeded
 
